@@ -3,9 +3,9 @@ package main
 import (
 	"context"
 	"fmt"
-	"strings"
 	"math/rand"
 	"sort"
+	"strings"
 	"time"
 
 	ipfslog "berty.tech/go-ipfs-log"
@@ -31,7 +31,7 @@ func init() {
 	fw.Register(&fw.Property{
 		ID:    "C03",
 		Level: "exploration",
-		Rule: "ENUMERATED matrix: write list {creator default, explicit [creator], explicit [creator, replica], empty->default, wildcard (control)} x access controller {ipfs via Create/Open; simple and orbitdb via their public constructors on a store built with the public store constructor} x author {honest non-writer, copied writer id, copied identity block with victim key, copied identity block with own key, copied id and key with foreign identity signatures} x route {local write call, local write after an Open during which the k-th needed block (k=1..3) did not arrive before the deadline, announced head, exchange on connect, manual Sync, ancestor via next of a colluding writer's head, ancestor via refs} x store type, with the forged entry at a PRNG position among valid heads; thorough repeats with 5 seeds of surrounding history. Each cell: forged entry delivered to a replica holding honest entries, then an honest marker write through the same path must take effect, then the oracle. " +
+		Rule: "ENUMERATED matrix: write list {creator default, explicit [creator], explicit [creator, replica], empty->default, wildcard (control)} x access controller {ipfs via Create/Open; simple and orbitdb via their public constructors on a store built with the public store constructor} x author {honest non-writer, copied writer id, copied identity block with victim key, copied identity block with own key, copied id and key with foreign identity signatures} x route {local write call, local write after an Open during which the k-th needed block (k=1..3) did not arrive before the deadline, local write on a database opened with an options value previously used to open another database, announced head, exchange on connect, manual Sync, ancestor via next of a colluding writer's head, ancestor via refs} x store type, with the forged entry at a PRNG position among valid heads; thorough repeats with 5 seeds of surrounding history. Each cell: forged entry delivered to a replica holding honest entries, then an honest marker write through the same path must take effect, then the oracle, and again after the replica was closed, reopened and loaded from its cached heads. " +
 			"distinct = cell (list, controller, author kind, route, store type, position); non-trivial = the forged entry was really delivered on the route (wire / call observed) and the marker took effect",
 		Assumptions: []string{"ground truth about the true author comes from construction (the harness knows which key signed)", "hashing, CBOR and signature primitives of go-ipfs-log are trusted base", "revocation is not part of the property"},
 		Cases:       c03Cases,
@@ -43,7 +43,7 @@ func init() {
 }
 
 var c03Lists = []string{"default", "creator", "creator+replica", "empty", "wildcard"}
-var c03Routes = []string{"local-write", "local-write-after-open-missing-block-1", "local-write-after-open-missing-block-2", "local-write-after-open-missing-block-3", "announce", "exchange", "sync", "ancestor-next", "ancestor-refs"}
+var c03Routes = []string{"local-write", "local-write-after-open-missing-block-1", "local-write-after-open-missing-block-2", "local-write-after-open-missing-block-3", "local-write-reused-options", "announce", "exchange", "sync", "ancestor-next", "ancestor-refs"}
 
 func c03Cases(tier string, seed int64) []fw.Case {
 	var out []fw.Case
@@ -67,7 +67,7 @@ func c03Cases(tier string, seed int64) []fw.Case {
 						if strings.HasPrefix(route, "local-write") && kind != fNonWriter {
 							continue // a local call cannot forge author fields
 						}
-						if strings.HasPrefix(route, "local-write-after") && (ac != "ipfs" || list == "wildcard") {
+						if (strings.HasPrefix(route, "local-write-after") || route == "local-write-reused-options") && (ac != "ipfs" || list == "wildcard") {
 							continue
 						}
 						if list == "wildcard" && kind != fNonWriter {
@@ -139,7 +139,12 @@ func c03Run(c fw.Case) fw.Verdict {
 		}
 		return p
 	}
-	w.C, w.R, w.N = mk(), mk(), mk()
+	w.C, w.N = mk(), mk()
+	if p, er := e.W.AddPeer(sim.PeerOpts{OnDisk: true}); er != nil {
+		err = er
+	} else {
+		w.R = p
+	}
 	if err != nil {
 		return fw.Verdict{Status: fw.Inconclusive, What: "setup: " + err.Error()}
 	}
@@ -308,7 +313,13 @@ func c03Run(c fw.Case) fw.Verdict {
 		_, werr := ApplyOp(bg, sF, honestOp(typ, 100))
 		e.W.Flush()
 		after := TakeSnap(typ, sF, F.Idx)
-		if werr == nil || !eqStrings(before.Order, after.Order) {
+		ownF := false
+		for _, h := range after.Order {
+			if after.Entries[h].Author == F.DB.Identity().ID {
+				ownF = true
+			}
+		}
+		if werr == nil || ownF {
 			return fw.Verdict{Status: fw.Violated, Key: "local-write-by-non-writer-accepted/after-faulty-open", NonTrivial: true, Sig: v.Sig,
 				What: fmt.Sprintf("a non-writer opened the database while the %d-th block needed by Open did not arrive; Open succeeded and its local write was accepted (error=%v, log %d -> %d entries)", k, werr, len(before.Order), len(after.Order))}
 		}
@@ -317,6 +328,53 @@ func c03Run(c fw.Case) fw.Verdict {
 		}
 		v.Status = fw.Held
 		v.Sample = map[string]interface{}{"ac": ac, "list": list, "route": route, "open": "succeeded, write refused"}
+		return v
+	}
+	if route == "local-write-reused-options" {
+		// a fresh non-writer first opens ANOTHER database in which it is a writer, then this one,
+		// with the same CreateDBOptions value (as an application might)
+		F, err := e.W.AddPeer(sim.PeerOpts{})
+		if err != nil {
+			return fw.Verdict{Status: fw.Inconclusive, What: err.Error()}
+		}
+		other, err := e.CreateDB("c03-other", typ, w.C, nil, []string{idC, F.DB.Identity().ID})
+		if err != nil {
+			return fw.Verdict{Status: fw.Inconclusive, What: "create other: " + err.Error()}
+		}
+		opts := &iface.CreateDBOptions{}
+		octx, ocancel := context.WithTimeout(bg, 20*time.Second)
+		s1, err := F.DB.Open(octx, other.Addr, opts)
+		if err != nil {
+			ocancel()
+			return fw.Verdict{Status: fw.Inconclusive, What: "open other: " + err.Error()}
+		}
+		F.Track(s1)
+		sF, err := F.DB.Open(octx, w.addr, opts)
+		ocancel()
+		if err != nil {
+			return fw.Verdict{Status: fw.Inconclusive, What: "open with reused options: " + err.Error()}
+		}
+		F.Track(sF)
+		got, _ := sF.AccessController().GetAuthorizedByRole("write")
+		before := TakeSnap(typ, sF, F.Idx)
+		_, werr := ApplyOp(bg, sF, honestOp(typ, 100))
+		e.W.Flush()
+		after := TakeSnap(typ, sF, F.Idx)
+		v.Count("local_write_attempts", 1)
+		v.NonTrivial = true
+		own := false
+		for _, h := range after.Order {
+			if after.Entries[h].Author == F.DB.Identity().ID {
+				own = true
+			}
+		}
+		_ = before
+		if werr == nil || own {
+			return fw.Verdict{Status: fw.Violated, Key: "local-write-by-non-writer-accepted/reused-options", NonTrivial: true, Sig: v.Sig,
+				What: fmt.Sprintf("a peer that opened another database first and then this one with the same options value wrote to this database although it is not in its write list (resolved write list %v, error=%v)", got, werr)}
+		}
+		v.Status = fw.Held
+		v.Sample = map[string]interface{}{"ac": ac, "list": list, "route": route, "resolved_write_list": got}
 		return v
 	}
 	switch route {
@@ -380,7 +438,7 @@ func c03Run(c fw.Case) fw.Verdict {
 		case "ancestor-next", "ancestor-refs":
 			var next, refs []cid.Cid
 			if route == "ancestor-next" {
-				next = []cid.Cid{forged.Hash}
+				next = append([]cid.Cid{forged.Hash}, headCids...)
 			} else {
 				next = headCids
 				refs = []cid.Cid{forged.Hash}
@@ -400,6 +458,47 @@ func c03Run(c fw.Case) fw.Verdict {
 		return fw.Verdict{Status: fw.Inconclusive, What: "rest not reached after attack", Sig: v.Sig}
 	}
 
+	if forged != nil && !w.wild && ac == "ipfs" {
+		inLog := func(s iface.Store) bool {
+			if logHas(s, forged.Hash) {
+				return true
+			}
+			for _, en := range s.OpLog().Values().Slice() {
+				if en.GetHash().Equals(forged.Hash) {
+					return true
+				}
+			}
+			return false
+		}
+		// the same must hold after the replica restarts and loads its log from its cached heads
+		if ac == "ipfs" {
+			w.R.Stop()
+			e.W.Settle()
+			if err := w.R.Start(); err == nil {
+				octx, ocancel := context.WithTimeout(bg, 20*time.Second)
+				s2, err := w.R.DB.Open(octx, w.addr, &iface.CreateDBOptions{})
+				ocancel()
+				if err == nil {
+					w.R.Track(s2)
+					w.sR = s2
+					_ = s2.Load(bg, -1)
+					e.W.Flush()
+					v.Count("membership_checks_after_restart", 1)
+					sn2 := TakeSnap(typ, s2, w.R.Idx)
+					if inLog(s2) {
+						return fw.Verdict{Status: fw.Violated, Key: fmt.Sprintf("forgery=%s/ac=%s/after-restart", kind, ac), NonTrivial: true, Sig: v.Sig,
+							What: fmt.Sprintf("after the replica was closed, reopened and loaded, the entry signed by an identity outside the write list (forgery %s, route %s) is in its log", kind, route)}
+					}
+					for _, h := range sn2.Order {
+						if !w.allowed[sn2.Entries[h].Author] {
+							return fw.Verdict{Status: fw.Violated, Key: fmt.Sprintf("forgery=%s/ac=%s/after-restart", kind, ac), NonTrivial: true, Sig: v.Sig,
+								What: fmt.Sprintf("after restart and load the log contains an entry claiming author %s, not in the write list", sn2.Entries[h].Author)}
+						}
+					}
+				}
+			}
+		}
+	}
 	// ---- marker: an honest write through the same path must take effect ----
 	mop, err := ApplyOp(bg, w.sC, honestOp(typ, 200))
 	if err != nil {
